@@ -193,6 +193,8 @@ fn spec_l2u(ls: &[LeapSecond], l: i64) -> i128 {
 
 fn c03_body<const N: usize>(max_leaps: usize) {
     let types = [any_ltt(), any_ltt(), any_ltt()];
+    // distinguishable types, so that a counterexample is observable by value and not only by address
+    kani::assume(types[0].ut_offset != types[1].ut_offset && types[0].ut_offset != types[2].ut_offset && types[1].ut_offset != types[2].ut_offset);
     let tr: [Transition; N] = core::array::from_fn(|_| Transition::new(kani::any(), kani::any()));
     let n: usize = kani::any();
     kani::assume(n <= N);
@@ -431,6 +433,7 @@ fn c13_rule_alternate() {
     kani::cover!(s.rule_mismatch && n == 1 && prescribed.ut_offset != types[tr[0].local_time_type_index() % 2].ut_offset);
 }
 
+#[cfg(feature = "alloc")]
 #[kani::proof]
 #[kani::unwind(10)]
 #[kani::stub(crate::timezone::RuleDay::unix_time, stub_rule_unix_time)]
